@@ -185,7 +185,16 @@ def rowUnlink (fs : FS) (root : Path) (r : Row) : DelRes × FS := unlink fs (row
 def rowStuck (fs : FS) (root : Path) (r : Row) : Bool :=
   rowEscapes fs root r || (rowUnlink fs root r).1 == .err
 
-def rowPresent (fs : FS) (root : Path) (r : Row) : Bool := (rowUnlink fs root r).1 != .notFound
+/-- does a node (file, directory or link, not followed) exist under this name? -/
+def nodeExists (fs : FS) (p : Path) : Bool :=
+  match p.getLast? with
+  | none => true
+  | some last =>
+    match canonicalize fs p.dropLast with
+    | .ok par => if last = ".." then isDir fs par else (fs.lookup (par ++ [last])).isSome
+    | .error _ => false
+
+def rowPresent (fs : FS) (root : Path) (r : Row) : Bool := nodeExists fs (rowPath fs root r)
 
 def sumI (l : List Row) : Int := l.foldl (fun a r => a + r.size) 0
 
@@ -212,6 +221,10 @@ def judgeEvict (st : JSt) (root : Path) (I I' : List Row) (F F' : FS) : Except S
   -- confinement: nothing outside the managed root disappears
   match D.find? (fun k => !isPrefix root k) with
   | some k => throw s!"[outside-root-deleted] {showPath k} lies outside the managed root {showPath root} and was deleted"
+  | none => pure ()
+  -- bookkeeping: a row is not kept while the pass deletes its file
+  match I'.find? (fun r => rowPresent F root r && !rowPresent F' root r) with
+  | some r => throw s!"[kept-row-file-deleted] the file of row {showRel r.rel} was deleted by the pass but the row was kept"
   | none => pure ()
   -- bookkeeping: exactly the files of the forgotten rows are gone, and they are gone
   let expectD := R.filterMap (fun r => let u := rowUnlink F root r
@@ -259,6 +272,9 @@ def judgeEvict (st : JSt) (root : Path) (I I' : List Row) (F F' : FS) : Except S
     throw "[not-idempotent] a pass directly following another removed something"
   pure ()
 
+/-- same rows regardless of the listing order -/
+def sameRows (a b : List Row) : Bool := a.all (b.contains ·) && b.all (a.contains ·) && a.length == b.length
+
 def isNotifier : Op → Bool
   | .created .. | .accessed .. | .deleted .. => true
   | _ => false
@@ -300,22 +316,48 @@ def judgeStep (st : JSt) (op : Op) (o : Obs) : Except String JSt := do
         if o.inv != st.inv then throw "[rejected-call-changed-inventory]"
         return { st' with poisonOk := true }
       throw "[panic] a notification with valid arguments panicked"
-    -- light check of "calls for paths outside the managed directory are ignored"
-    match st.root, canonicalize st.fs p with
-    | some root, .ok q =>
-      if !isPrefix root q ∧ o.inv != st.inv then throw "[outside-root-recorded] a path outside the root changed the inventory"
-      return st'
-    | _, _ => return st'
+    -- "calls for paths outside the managed directory are ignored"; a call for an existing file under
+    -- the root records exactly what was reported (the LRU statement is about the reported history)
+    match st.root, canonicalize st.fs p, st.inv, o.inv with
+    | some root, .ok q, some I, some I' =>
+      if !isPrefix root q then
+        if o.inv != st.inv then throw "[outside-root-recorded] a path outside the root changed the inventory"
+        return st'
+      let rel := q.drop root.length
+      let others (l : List Row) := l.filter (fun r => r.rel != rel)
+      if !sameRows (others I) (others I') then throw "[record] a notification changed other rows"
+      match op, I'.find? (fun r => r.rel == rel) with
+      | .created _ size _, some r =>
+        if r.size != toI64 size ∨ (r.ctime : Int) != t ∨ (r.atime : Int) != t then
+          throw s!"[record] created {showRel rel}: recorded {showRow r}"
+        return st'
+      | .created .., none => throw s!"[record] created {showRel rel} was not recorded"
+      | _, some r =>
+        match I.find? (fun x => x.rel == rel) with
+        | some r0 =>
+          if (r.atime : Int) != t ∨ r.size != r0.size ∨ r.ctime != r0.ctime then
+            throw s!"[record] accessed {showRel rel}: recorded {showRow r}"
+          return st'
+        | none => throw s!"[record] accessed {showRel rel} created a row"
+      | _, none =>
+        if (I.find? (fun x => x.rel == rel)).isSome then throw s!"[record] accessed {showRel rel} lost the row"
+        return st'
+    | _, _, _, _ => return st'
   | .deleted p =>
     if fsKeys o.fs != fsKeys st.fs then throw "[notification-touched-disk]"
     if o.status = "panic" then
       if st.poisonOk then return st'
       throw "[panic] on_file_deleted panicked"
-    match st.root, canonicalize st.fs p with
-    | some root, .ok q =>
-      if !isPrefix root q ∧ o.inv != st.inv then throw "[outside-root-recorded] a path outside the root changed the inventory"
+    match st.root, canonicalize st.fs p, st.inv, o.inv with
+    | some root, .ok q, some I, some I' =>
+      if !isPrefix root q then
+        if o.inv != st.inv then throw "[outside-root-recorded] a path outside the root changed the inventory"
+        return st'
+      let rel := q.drop root.length
+      if !sameRows (I.filter (fun r => r.rel != rel)) I' then
+        throw s!"[record] deleted {showRel rel}: the row is still recorded or other rows changed"
       return st'
-    | _, _ => return st'
+    | _, _, _, _ => return st'
   | .evict | .evictAsync =>
     let closed := match op with | .evictAsync => true | _ => false
     let stN : JSt := if closed then { st' with root := none, poisonOk := false } else st'
